@@ -2,9 +2,10 @@
     Same model as C01 plus the timeout arithmetic of Model/Context.v. The theorems say that the
     deadline branch of the select cannot be disabled by anything another actor does (a stalled
     write or flush is another goroutine's disabled step), that the outcome is classified by the
-    branch taken, that no registration is left behind, and that every positive timeout yields a
-    deadline. That the Go timer fires and the goroutine is scheduled within the allowance is
-    measured by the harness, not proved. *)
+    branch taken, that no registration is left behind ON ANY EXIT PATH (on NATS: not open, empty
+    frame, Register error, oversize detected after Register, publish error, timeout, 503, result),
+    and that every positive timeout yields a deadline. That the Go timer fires and the goroutine is
+    scheduled within the allowance is measured by the harness, not proved. *)
 From Coq Require Import ZArith List Lia.
 From FV Require Model.Context.
 From FV Require Import Model.Registry Proofs.RegistryProofs.
@@ -13,30 +14,74 @@ Open Scope Z_scope.
 
 (** a caller waiting in its select with a deadline can always take the timeout branch - whatever the
     send goroutine, the reader and all other callers are doing - and that step touches nothing else *)
-Theorem c13_timeout_branch_always_enabled : forall b s i,
+Theorem c13_timeout_branch_always_enabled : forall tk b s i,
   (i < ncallers s)%nat -> c_phase (callers s i) = CSelect -> c_deadline (callers s i) = true ->
-  exists s', step b s (ETake i TTimeout) = Some s' /\ c_phase (callers s' i) = CTook TTimeout None
+  exists s', step tk b s (ETake i TTimeout) = Some s' /\ c_phase (callers s' i) = CTook TTimeout None
              /\ reg s' = reg s /\ rd s' = rd s /\ (forall j, j <> i -> callers s' j = callers s j).
-Proof. exact timeout_branch_enabled. Qed.
+Proof. intros tk b s i Hi Hp Hd. apply timeout_branch_enabled; auto. Qed.
 Print Assumptions c13_timeout_branch_always_enabled.
+
+(** NATS: time.After(ctx.Timeout()) needs no deadline flag - the branch is enabled for EVERY waiting
+    request, also one whose timeout is 0 *)
+Theorem c13_timeout_branch_always_enabled_nats : forall b s i,
+  (i < ncallers s)%nat -> c_phase (callers s i) = CSelect ->
+  exists s', step KNats b s (ETake i TTimeout) = Some s' /\ c_phase (callers s' i) = CTook TTimeout None
+             /\ reg s' = reg s /\ rd s' = rd s /\ (forall j, j <> i -> callers s' j = callers s j).
+Proof. intros b s i Hi Hp. apply timeout_branch_enabled; auto. Qed.
+Print Assumptions c13_timeout_branch_always_enabled_nats.
 
 (** the deferred Unregister always runs, and the reported outcome is TIMED_OUT exactly when the
     timeout branch was taken, the send error exactly when that branch was taken, and the frame
-    otherwise - never two of them *)
+    otherwise - never two of them (adapter; [TTooLarge] is not a way to leave the adapter's Request) *)
 Theorem c13_outcome_classification : forall b s i t got,
-  (i < ncallers s)%nat -> c_phase (callers s i) = CTook t got -> (t = TResult -> got <> None) ->
-  exists s' o, step b s (EUnregister i) = Some s' /\ c_phase (callers s' i) = CDone o
+  (i < ncallers s)%nat -> c_phase (callers s i) = CTook t got -> (t = TResult -> got <> None) -> t <> TTooLarge ->
+  exists s' o, step KAdapter b s (EUnregister i) = Some s' /\ c_phase (callers s' i) = CDone o
     /\ (o = OTimedOut <-> t = TTimeout) /\ (o = OSendErr <-> t = TSendErr)
     /\ (forall f, o = OOk f <-> (t = TResult /\ got = Some f)).
 Proof. exact unregister_outcome. Qed.
 Print Assumptions c13_outcome_classification.
 
-(** a finished request - success, timeout or send error - leaves no registration behind *)
-Theorem c13_no_registration_left : forall b ops dl n evs s i o,
-  distinct_ops ops n -> run b (init ops dl n) evs = Some s -> (i < n)%nat ->
+(** NATS: every way of leaving Request after Register succeeded - oversize, publish error, timeout,
+    result - runs the deferred Unregister, which removes the request's op id from the registry, and
+    the outcome is determined by the way taken; a result is SERVICE_NOT_AVAILABLE exactly when it is
+    the empty frame *)
+Theorem c13_outcome_classification_nats : forall b s i t got,
+  (i < ncallers s)%nat -> c_phase (callers s i) = CTook t got -> (t = TResult -> got <> None) ->
+  exists s' o, step KNats b s (EUnregister i) = Some s' /\ c_phase (callers s' i) = CDone o
+    /\ reg s' = reg_remove (reg s) (c_op (callers s i))
+    /\ (o = OTimedOut <-> t = TTimeout) /\ (o = OSendErr <-> t = TSendErr) /\ (o = OTooLarge <-> t = TTooLarge)
+    /\ (o = ONotAvail <-> (t = TResult /\ exists f, got = Some f /\ is_na f = true))
+    /\ (forall f, o = OOk f <-> (t = TResult /\ got = Some f /\ is_na f = false)).
+Proof. exact unregister_outcome_nats. Qed.
+Print Assumptions c13_outcome_classification_nats.
+
+(** a finished request - whatever its outcome - leaves no registration behind *)
+Theorem c13_no_registration_left : forall tk b ops dl dk n evs s i o,
+  distinct_ops ops n -> run tk b (initd ops dl dk n) evs = Some s -> (i < n)%nat ->
   c_phase (callers s i) = CDone o -> reg_lookup (reg s) (ops i) = None.
 Proof. exact done_not_registered. Qed.
 Print Assumptions c13_no_registration_left.
+
+(** ... and without any assumption on the op ids: no registry entry points at the channel of a
+    finished request, on EVERY exit path ([o] ranges over all eight outcomes) of either transport *)
+Theorem c13_no_registration_left_any_opids : forall tk b ops dl dk n evs s i o,
+  run tk b (initd ops dl dk n) evs = Some s -> c_phase (callers s i) = CDone o ->
+  forall k, ~ In (k, i) (reg s).
+Proof. exact done_no_entry. Qed.
+Print Assumptions c13_no_registration_left_any_opids.
+
+(** a request whose FContext carries a malformed op id (a negative number in the model; getOpID fails)
+    registers nothing - Register refuses it (before the repair it was registered under key 0, which
+    Unregister could never remove: the NATS Request returned getOpID's error and left a registration
+    behind) - so also this exit path leaves the registry as it found it *)
+Theorem c13_malformed_opid_registers_nothing : forall tk b s i,
+  (i < ncallers s)%nat -> c_phase (callers s i) = CNew -> c_op (callers s i) < 0 ->
+  (tk = KNats -> c_data (callers s i) <> DEmpty) ->
+  exists s', step tk b s (ERegister i) = Some s'
+    /\ c_phase (callers s' i) = match tk with KNats => CDone ORegErr | KAdapter => CParked end
+    /\ reg s' = reg s /\ rd s' = rd s /\ (forall k, k <> i -> callers s' k = callers s k).
+Proof. exact malformed_opid_registers_nothing. Qed.
+Print Assumptions c13_malformed_opid_registers_nothing.
 
 (** every positive timeout is stored as at least one millisecond, so ToContext gives it a deadline
     (before the repair a timeout below 1 ms became 0 = "no deadline": DESIGN.md F12) *)
@@ -51,8 +96,26 @@ Print Assumptions c13_positive_timeout_has_deadline.
 
 Example c13_nonvacuous :
   Context.quot_ms 500000 = 1 /\ Context.quot_ms 1500000 = 1 /\ Context.quot_ms 20000000 = 20 /\
-  match run false (init (fun _ => 5) (fun _ => true) 1) [ERegister 0; ERelease 0; ETake 0 TTimeout; EUnregister 0] with
+  match run KAdapter false (init (fun _ => 5) (fun _ => true) 1) [ERegister 0; ERelease 0; ETake 0 TTimeout; EUnregister 0] with
   | Some s => c_phase (callers s 0) = CDone OTimedOut /\ reg s = []
+  | None => False
+  end.
+Proof. vm_compute. repeat split. Qed.
+
+(** NATS: oversize is detected after Register (the registration exists in between and receives
+    frames), a publish error and a timeout without deadline flag; all three leave the registry empty *)
+Example c13_nonvacuous_nats :
+  let dk := fun i => match i with 0%nat => DTooLarge | _ => DNormal end in
+  match run KNats false (initd (fun i => 5 + Z.of_nat i) (fun _ => false) dk 3)
+            [ERegister 0; ERegister 1; ERegister 2] with
+  | Some s => reg s = [(7, 2%nat); (6, 1%nat); (5, 0%nat)]
+  | None => False
+  end /\
+  match run KNats false (initd (fun i => 5 + Z.of_nat i) (fun _ => false) dk 3)
+            [ERegister 0; ERegister 1; ERegister 2; ERelease 0; EPublishFail 1; ERelease 2; ETake 2 TTimeout;
+             EUnregister 1; EUnregister 2; EUnregister 0] with
+  | Some s => c_phase (callers s 0) = CDone OTooLarge /\ c_phase (callers s 1) = CDone OSendErr
+              /\ c_phase (callers s 2) = CDone OTimedOut /\ reg s = []
   | None => False
   end.
 Proof. vm_compute. repeat split. Qed.
